@@ -31,6 +31,12 @@ pub struct TracedTexError {
     )]
     pub error: Box<dyn TexError>,
     pub stack_trace: Vec<StackTraceElement>,
+    // Serialized as a sequence of pairs: the keys are not strings, and formats like JSON
+    // only support maps with string keys.
+    #[cfg_attr(
+        feature = "serde",
+        serde(with = "texcraft_stdext::serde_tools::iter")
+    )]
     pub token_traces: HashMap<token::Token, trace::SourceCodeTrace>,
     pub end_of_input_trace: Option<trace::SourceCodeTrace>,
 }
